@@ -67,6 +67,23 @@ class Raised:
         return f"Raised({self.type_name}: {self.exc})"
 
 
+_SYMBOLIC_TYPES = ("SymArray", "T", "MaskSel", "SymSeq", "SymList", "Opaque", "SymRange", "AbsFunc", "Closure", "DType", "Inf", "NaN")
+
+
+def _verifier_limit(e):
+    import re as _re
+
+    if not isinstance(e, (TypeError, AttributeError, NotImplementedError)):
+        return False
+    msg = str(e)
+    names = "|".join(_SYMBOLIC_TYPES)
+    if isinstance(e, TypeError):
+        return bool(_re.search(rf"(unsupported operand type|not supported between instances|bad operand type|object is not (subscriptable|iterable|callable)|object cannot be interpreted|has no len).*'({names})'", msg)) or bool(_re.search(rf"'({names})' object (is not|cannot|does not|has no)", msg))
+    if isinstance(e, AttributeError):
+        return bool(_re.search(rf"'({names})' object has no attribute", msg))
+    return False
+
+
 class SkipInstance(Exception):
     """native mode: the sampled input does not satisfy `requires`"""
 
@@ -281,6 +298,10 @@ class K:
         except RecursionError:
             raise Undecided("recursion limit") from None
         except Exception as e:  # an exceptional path of the code under contract
+            if _verifier_limit(e):
+                # an operator or method that the symbolic values do not implement: a limit of the verifier,
+                # not an exception of the program
+                raise Undecided(f"not supported by the symbolic values: {type(e).__name__}: {e}") from None
             e.pyvc_tb = traceback.format_exc(limit=6)
             return Raised(e)
 
